@@ -18,7 +18,7 @@ CONFIGS = {"no-sig-flattening": ["--no-sig-flattening"], "default": [], "autodro
 DEFS = ["-Dmalloc=vh_malloc", "-Dfree=vh_free", "-Drealloc=vh_realloc", "-Dcalloc=vh_calloc", "-Daligned_alloc=vh_aligned_alloc"]
 
 
-def run_all(tier, wd):
+def run_all(tier, wd, unit_filter=None):
     from .rexec_run import sig_shape
     cli = cli_exe()
     vhost_dir = cargo_build("vhost")
@@ -35,6 +35,8 @@ def run_all(tier, wd):
         if len(u["cases"]) < (6 if tier == "quick" else 12):
             u["cases"].append({"args": v["args"], "res": v["res"], "enc": v["enc"]})
     units = list(units.values())
+    if unit_filter is not None:
+        units = [u for u in units if unit_filter(u)]
     jobs = []
     for n, u in enumerate(units):
         for cfgname in (["no-sig-flattening", "default"] if tier == "quick" else list(CONFIGS)):
